@@ -21,11 +21,15 @@ for b in raw["bodies"]:
         f = t.get("func", {})
         fn = f.get("fn") if f.get("k") == "const" else None
         kind = ADAPTORS.get(fn.get("def")) if fn else None
-        if kind and len(t.get("args", [])) == 2:
-            a = t["args"][1]
-            if a.get("k") in ("move", "copy") and "closure@" in b["locals"][a["place"]["l"]]["ty"]:
+        if kind and len(t.get("args", [])) == (3 if kind == "fold" else 2):
+            a = t["args"][-1]
+            if a.get("k") == "const" or (a.get("k") in ("move", "copy") and "closure@" in b["locals"][a["place"]["l"]]["ty"]):
                 p = strip_lt(b["path"]).split("::{closure")[0]
                 out.setdefault(p, {}).setdefault(kind, 0)
                 out[p][kind] += 1
+        if fn and fn.get("def") in ("std::option::Option::<T>::and_then", "std::option::Option::<T>::map") and len(t.get("args", [])) == 2 and t["args"][1].get("k") == "const":
+            p = strip_lt(b["path"]).split("::{closure")[0]
+            out.setdefault(p, {}).setdefault("option_fn", 0)
+            out[p]["option_fn"] += 1
 json.dump(out, open(os.path.join(V, "rxv", "vocabulary_adaptors.json"), "w"), indent=1, sort_keys=True)
 print(out)
